@@ -219,3 +219,120 @@ Print Assumptions C15_pushint_regenerated.
 Print Assumptions C15_named_constant_regenerated.
 Print Assumptions C15_constant_block_regenerated.
 Print Assumptions C15_int_constants_pipeline.
+
+(* ------------------------------------------------------------------------------------------------------------
+   Extension (moving whole subroutine bodies, layer 1: isomorphism invariance of the analysis and the search;
+   Lemmas/IsoLemmas.v, non-vacuity on two parsed programs in Lemmas/IsoEx.v) *)
+From Coq Require Import String List NArith ZArith Bool Arith.
+From Tealer Require Import Tables LeafPrelude Leaves Syntax Parse Cfg StackAst Keys Analysis Domains Detect IsoLemmas IsoEx.
+
+(* two functions isomorphic via a block renaming r and a position renaming g: for every fuel the analysis result of f'
+   is the renamed result of f (exceptions / fuel exhaustion included), every context and validation verdict at r b is
+   the one at b, and every detector returns exactly the r-images of the paths, in the same order *)
+Theorem C15_isomorphic_functions :
+  forall (r g : nat -> nat) (f f' : func), fiso r g f f' -> forall fuel : nat,
+  run_all f' fuel = omap (ren_result r) (run_all f fuel) /\
+  forall res : fn_result,
+    (forall b fam, ctx_of (ren_result r res) (r b) fam = ctx_of res b fam) /\
+    (forall b checks ai, validated_in_block (ren_result r res) checks ai (r b) = validated_in_block res checks ai b) /\
+    (forall fuel' name checks,
+       run_detector f' (ren_result r res) fuel' name checks =
+       omap (ren_paths r) (run_detector f res fuel' name checks)).
+Proof. exact iso_verdicts. Qed.
+
+(* verdict reading: same number of paths, "some path" / "no path" identical *)
+Theorem C15_isomorphic_verdict :
+  forall (r g : nat -> nat) (f f' : func) (fuel fuel' : nat) (res : fn_result) (name : string)
+         (checks : bctx -> bool) (ps : list (list nat)),
+  fiso r g f f' ->
+  run_all f fuel = Done res -> run_detector f res fuel' name checks = Done ps ->
+  exists res' ps',
+    run_all f' fuel = Done res' /\ run_detector f' res' fuel' name checks = Done ps' /\
+    ps' = map (map r) ps /\ (ps' = nil <-> ps = nil) /\ Datatypes.length ps' = Datatypes.length ps /\
+    (forall b fam, ctx_of res' (r b) fam = ctx_of res b fam).
+Proof. exact iso_verdict. Qed.
+
+Theorem C15_isomorphic_verdict_conv :
+  forall (r g : nat -> nat) (f f' : func) (fuel fuel' : nat) (res' : fn_result) (name : string)
+         (checks : bctx -> bool) (ps' : list (list nat)),
+  fiso r g f f' ->
+  run_all f' fuel = Done res' -> run_detector f' res' fuel' name checks = Done ps' ->
+  exists res ps,
+    run_all f fuel = Done res /\ run_detector f res fuel' name checks = Done ps /\
+    res' = ren_result r res /\ ps' = map (map r) ps.
+Proof. exact iso_verdict_conv. Qed.
+
+(* the isomorphism is decidable up to injectivity of the renamings: the model's check *)
+Theorem C15_iso_check_sound :
+  forall (r g : nat -> nat) (f f' : func),
+  (forall x y, r x = r y -> x = y) -> (forall x y, g x = g y -> x = y) ->
+  iso_check r g f f' = true -> fiso r g f f'.
+Proof. exact iso_check_sound. Qed.
+
+(* two parsed programs that differ by moving a subroutine body are accepted, and the reported path moves with it *)
+Theorem C15_moved_subroutine_example :
+  fiso ie_r ie_g ie_f ie_f' /\
+  run_all ie_f 100 = Done ie_res /\ run_all ie_f' 100 = Done (ren_result ie_r ie_res).
+Proof. exact (conj ie_fiso (conj ie_run_all ie_run_all')). Qed.
+
+Print Assumptions C15_isomorphic_functions.
+Print Assumptions C15_isomorphic_verdict.
+Print Assumptions C15_isomorphic_verdict_conv.
+Print Assumptions C15_iso_check_sound.
+Print Assumptions C15_moved_subroutine_example.
+
+(* ------------------------------------------------------------------------------------------------------------
+   Extension (moving whole subroutine bodies, layer 2: the parse level; Lemmas/MoveSubLemmas.v, example in
+   Lemmas/MoveSubEx.v).  p = M ++ S1 ++ S2 ++ R, p' = M ++ S2 ++ S1 ++ R, g = the induced position shift. *)
+From Tealer Require Import MoveSubLemmas MoveSubEx.
+
+(* instruction level, every program: opcodes, label table, Instruction.next (default successor first, then the jump
+   targets in order) and the bz/bnz next-line test of p' are the g-images of those of p *)
+Theorem C15_move_instruction_graph :
+  forall M S1 S2 R : prog, movable M S1 S2 = true ->
+  (forall k, op_at (mv_p' M S1 S2 R) (mv_g M S1 S2 k) = op_at (mv_p M S1 S2 R) k) /\
+  (forall l, find_label (mv_p' M S1 S2 R) l = option_map (mv_g M S1 S2) (find_label (mv_p M S1 S2 R) l)) /\
+  (forall k, ins_next (mv_p' M S1 S2 R) (mv_g M S1 S2 k) = option_map (map (mv_g M S1 S2)) (ins_next (mv_p M S1 S2 R) k)) /\
+  (forall br k, op_at (mv_p M S1 S2 R) k = Some br ->
+     branch_to_next (mv_p' M S1 S2 R) br (mv_g M S1 S2 k) = branch_to_next (mv_p M S1 S2 R) br k).
+Proof.
+  intros M S1 S2 R H.
+  exact (conj (mv_op_at M S1 S2 R) (conj (mv_find_label M S1 S2 R H) (conj (mv_ins_next M S1 S2 R H) (mv_branch_to_next M S1 S2 R H)))).
+Qed.
+
+(* a label defined in both moved bodies breaks it (the last definition wins) *)
+Theorem C15_move_duplicate_label_refuted :
+  exists M S1 S2 R l,
+    ends_nf M = true /\ ends_nf S1 = true /\ ends_nf S2 = true /\ S1 <> nil /\ S2 <> nil /\
+    labs_disjoint S1 S2 = false /\
+    find_label (mv_p' M S1 S2 R) l <> option_map (mv_g M S1 S2) (find_label (mv_p M S1 S2 R) l).
+Proof. exact mv_find_label_refuted. Qed.
+
+(* block level: whenever the model's graph check accepts the two parsed contracts under the block renaming computed
+   from the block scan of p, contexts, validation and the path lists of all detectors coincide, for every fuel *)
+Theorem C15_move_subroutine_partial :
+  forall (M S1 S2 R : prog) (t t' : teal),
+  movable M S1 S2 = true ->
+  parse_teal (mv_p M S1 S2 R) = Ok t -> parse_teal (mv_p' M S1 S2 R) = Ok t' ->
+  iso_check_graph (mv_r M S1 S2 R) (mv_g M S1 S2) (whole_function t) (whole_function t') = true ->
+  let r := mv_r M S1 S2 R in
+  fiso r (mv_g M S1 S2) (whole_function t) (whole_function t') /\
+  forall fuel,
+  run_all (whole_function t') fuel = omap (ren_result r) (run_all (whole_function t) fuel) /\
+  forall res,
+    (forall b fam, ctx_of (ren_result r res) (r b) fam = ctx_of res b fam) /\
+    (forall b checks ai, validated_in_block (ren_result r res) checks ai (r b) = validated_in_block res checks ai b) /\
+    (forall fuel' name checks,
+       run_detector (whole_function t') (ren_result r res) fuel' name checks =
+       omap (ren_paths r) (run_detector (whole_function t) res fuel' name checks)).
+Proof. exact move_sub_verdicts_partial. Qed.
+
+Theorem C15_move_subroutine_example :
+  movable mx_M mx_S1 mx_S2 = true /\
+  iso_check_graph (mv_r mx_M mx_S1 mx_S2 nil) (mv_g mx_M mx_S1 mx_S2) (whole_function ie_t) (whole_function mx_t') = true.
+Proof. exact (conj mx_movable mx_check). Qed.
+
+Print Assumptions C15_move_instruction_graph.
+Print Assumptions C15_move_duplicate_label_refuted.
+Print Assumptions C15_move_subroutine_partial.
+Print Assumptions C15_move_subroutine_example.
